@@ -107,6 +107,13 @@ ITER_MODELS = [
 
 
 # ------------------------------------------------------------------ denotation
+def _call_mapper(engine, st, clo, fn, ccell, elem_ref):
+    """the flat_map argument: a closure (its environment is the first argument) or a named method (`Function::all_inst_iter`)"""
+    if isinstance(clo, sym.FnV) and "{closure" in clo.name:
+        return engine.call_pure(st, fn, [sym.Ref(ccell, (), True), elem_ref])
+    return engine.call_pure(st, fn, [elem_ref])
+
+
 class Den:
     """Denotes terms as z3 sequences for a module with F functions x B blocks."""
 
@@ -163,7 +170,7 @@ class Den:
             ccell = ("h", "clo:" + en)
             st.mem[ccell] = clo
             fn = self.engine.resolve_fn(clo.name)
-            res = self.engine.call_pure(st, fn, [sym.Ref(ccell, (), True), sym.Ref(cell, ())])
+            res = _call_mapper(self.engine, st, clo, fn, ccell, sym.Ref(cell, ()))
             ok = [r for r in res if r.status == "return"]
             if len(res) != 1 or not ok:
                 raise mir.Unsupported("flat_map closure has %d paths" % len(res))
@@ -185,7 +192,7 @@ class Den:
                 st.mem[cell] = sym.Sym(en, ety)
                 ccell = ("h", "clo:" + en)
                 st.mem[ccell] = clo
-                res = self.engine.call_pure(st, fn, [sym.Ref(ccell, (), True), sym.Ref(cell, ())])
+                res = _call_mapper(self.engine, st, clo, fn, ccell, sym.Ref(cell, ()))
                 ok = [r for r in res if r.status == "return"]
                 if len(res) != 1 or not ok:
                     raise mir.Unsupported("flat_map closure has %d paths" % len(res))
